@@ -158,8 +158,11 @@ def classify(d, mp, woven_name, lines):
     for lb in mp['labels']:
         clause_lines.update(range(lb['line_start'], lb['line_end'] + 1))
     cand = [s for s in spans if s['line_start'] not in clause_lines]
-    # prefer a small span (an exit/call) over the whole-body span
-    cand.sort(key=lambda s: (s['line_end'] - s['line_start'], not s['primary']))
+
+    def in_unit(s_):
+        return any(u_['line_start'] <= s_['line_start'] <= u_['line_end'] for u_ in mp['units'])
+    # prefer spans inside a unit (the code), then a small span (an exit/call) over the whole-body span
+    cand.sort(key=lambda s: (not in_unit(s), s['line_end'] - s['line_start'], not s['primary']))
     if cand:
         site = cand[0]
     unit = None
